@@ -53,6 +53,7 @@ def cases(draw):
         "ascale": draw(st.sampled_from(["absmax", "saturating", "drawn"])),
         "group": draw(st.integers(0, 3)),
         "per_tensor_w": draw(st.integers(0, 5)) == 0,
+        "act_axis": draw(st.sampled_from([None, None, None, None, 0, -1])),  # quantized activations may also be per-axis
         "seed": draw(st.integers(0, 2**20)),
     }
 
@@ -122,12 +123,19 @@ def build(case):
     aq = None if case["act"] == "float" else O.QT8[case["act"]]
     p = P[dtype]
     if case["mode"] == "exact":
-        nnz = max(1, min(K, (2**p) // 32))
+        nnz = max(1, min(K, (2**p) // (32 if case.get("act_axis") is None else 128)))  # per-axis activation scales go up to 4x
         xs, ws = 2.0**-3, 2.0**-2
         xc = sparse_codes(bshape + [K], nnz, -2, 2, g)
         if case["layout"] == "expanded":
             xc = xc[:1].expand(xc.shape).contiguous()
-        if aq is not None:
+        ax = case.get("act_axis")
+        if aq is not None and ax is not None and xc.ndim >= 2 and xc.shape[ax] > 1:
+            # per-axis quantized activations: a different power-of-two scale per index of the first / last axis
+            sshape = [1] * xc.ndim
+            sshape[ax] = xc.shape[ax]
+            sc = (xs * 2.0 ** torch.arange(xc.shape[ax]).remainder(3)).reshape(sshape)
+            x = SymmetricQuantizer.apply((xc * sc).to(dtype), aq, ax, sc.to(dtype))
+        elif aq is not None:
             x = quantize_laid_out((xc * xs).to(dtype), aq, torch.tensor(xs, dtype=dtype), case["layout"])
         else:
             x = lay_out((xc * xs).to(dtype), case["layout"])
@@ -161,7 +169,11 @@ def build(case):
         elif case["ascale"] == "drawn":
             s = torch.tensor(mag / 40.0, dtype=dtype)
         s = torch.where(s > 0, s, torch.ones_like(s))
-        x = quantize_laid_out(x, aq, s, case["layout"])
+        ax = case.get("act_axis")
+        if ax is not None and x.ndim >= 2 and x.shape[ax] > 1:
+            x = quantize_weight(x.contiguous(), aq, ax)
+        else:
+            x = quantize_laid_out(x, aq, s, case["layout"])
     else:
         x = lay_out(x, case["layout"])
     rowf = 10.0 ** (torch.rand(N, 1, generator=g, dtype=torch.float64) * 2 - 1)
@@ -236,6 +248,8 @@ def exec_case(case):
     x, w, b = r
     ref, mag = reference(x, w, b)
     entry = case["entry"]
+    if isinstance(x, QBytesTensor) and x.axis is not None and entry in ("op", "routes", "bmm"):
+        entry = "linear"  # the library op takes a scalar activation scale: per-axis activations only exist at the linear / mm level
     xk = "float" if not isinstance(x, QTensor) else ("qint8" if x.qtype.name == "qint8" else "qfloat8")
     wk = "qint8" if case["wq"] == "qint8" else ("qfloat8" if "float8" in case["wq"] else "lowbit")
     want_shape = tuple((x.shape[:-1])) + (case["outf"],)
@@ -298,7 +312,7 @@ def exec_case(case):
         "rows>16" if case["rows"] > 16 else "rows<=16", f"inf%16={case['inf'] % 16 == 0}", f"layout-{case['layout']}"]
     default = case["dtype"] == "fp32" and case["act"] == "float" and case["inf"] % 32 == 0 and case["inf"] == case["outf"]
     out.nontrivial = not default
-    out.fingerprint = [case[k] for k in ("dtype", "act", "wq", "rows", "brank", "inf", "outf", "bias", "mode", "entry", "layout")]
+    out.fingerprint = [case[k] for k in ("dtype", "act", "wq", "rows", "brank", "inf", "outf", "bias", "mode", "entry", "layout")] + [case.get("act_axis")]
     return out
 
 
@@ -327,6 +341,11 @@ def run_grid(ctx):
                                 continue  # the quantized bmm path needs two per-tensor qint8 operands
                             if entry == "mm_other_axis0" and (ptw or wq in ("qint4", "qint2")):
                                 continue
+                            if entry == "linear" and act != "float" and not ptw and (r + n) % 3 == 0:
+                                for ax in (0, -1):
+                                    cs.append({"dtype": dt, "act": act, "wq": wq, "rows": r, "brank": 1 + (k % 2), "inf": k, "outf": n, "bias": True, "mode": "exact",
+                                               "entry": "linear", "layout": "contig", "ascale": "absmax", "group": 0, "per_tensor_w": False, "act_axis": ax,
+                                               "seed": ctx.seed * 1000 + r + 7 * k + 13 * n + 1})
                             cs.append({"dtype": dt, "act": act, "wq": wq, "rows": r, "brank": 1 if entry != "linear" else 1 + (r % 2), "inf": k, "outf": n,
                                        "bias": (r + k) % 2 == 0, "mode": "exact", "entry": entry, "layout": "expanded" if (entry == "linear" and (r + k + n) % 5 == 0) else "contig", "ascale": "absmax", "group": 0,
                                        "per_tensor_w": ptw, "seed": ctx.seed * 1000 + r + 7 * k + 13 * n})
